@@ -194,6 +194,8 @@ def run(prog: Program, res: Result) -> None:  # noqa: PLR0912, PLR0915
         ("CallNode.render_to_output_async", "self.name"): "a macro that was never defined",
         ("CallNode.render_to_output", "name"): "a macro parameter without argument or default",
         ("CallNode.render_to_output_async", "name"): "a macro parameter without argument or default",
+        ("RenderContext.get", "'<not a name>'"): "a bracketed path root that evaluated to something other than a string: no variable can have that name",
+        ("RenderContext.get_async", "'<not a name>'"): "a bracketed path root that evaluated to something other than a string: no variable can have that name",
     }
     n_u = 0
     for mod in prog.modules.values():
